@@ -435,11 +435,18 @@ def evaluate(ctx: Ctx, scenarios: list[dict], results: list[dict], tie: bool = T
                 batch.append((sc, run))
     if not tie or not batch:
         return
-    try:
-        outs = ctx.driver.ask([run["req"] for _, run in batch])
-    except leanio.LeanError as e:
-        ctx.tie_fail(f"Lean driver failed: {e}", {"log": e.log})
-        return
+    outs = None
+    for attempt in range(3):
+        try:
+            outs = ctx.driver.ask([run["req"] for _, run in batch])
+            break
+        except leanio.LeanError as e:
+            # the driver imports every property's Drv module; a concurrent rebuild of another module can
+            # make it fail transiently. That is a toolchain problem (exit 2), never a verdict on C07.
+            err = e
+            leanio.lake_build(["Kopf.Drv.All"])
+    if outs is None:
+        raise RuntimeError(f"Lean driver failed (toolchain problem, not a verdict): {err} {err.log[-1500:]}")
     for (sc, run), out in zip(batch, outs):
         if not out or out[0] != "ok":
             ctx.tie_fail("driver rejected a run", {"scenario": sc, "request": run["req"], "answer": out})
